@@ -464,16 +464,9 @@ impl Parser {
     /// to the source lifetime (only when implicit)
     pub fn get_type(&self, ty: &mut Type) -> TokenStream {
         traverse_type(ty, &mut |ty| {
-            if let Type::Path(tp) = ty {
-                // Skip types that begin with `self::`
-                if tp.qself.is_none() {
-                    // If `ty` is a generic type parameter, try to find
-                    // its concrete type defined with #[logos(type T = Type)]
-                    if let Some(substitute) = self.types.find(&tp.path) {
-                        *ty = substitute;
-                    }
-                }
-            }
+            // If `ty` is a generic type parameter, try to find
+            // its concrete type defined with #[logos(type T = Type)]
+            self.types.substitute(ty);
             // If `ty` is a concrete type, fix its lifetimes to 'source (when 'source is implicit)
             self.types.fix_source_lifetime_implicit(ty);
         });
